@@ -28,6 +28,14 @@ func kindEffSeq(c *Ctx, it Item) (string, error) {
 	}
 	pats := it.Strs("assigns")
 	wantRet, _ := it["returns"].(bool)
+	// "full": render a tracked call with its whole callee expression ("call:n.dl.Unlock" rather than "call:Unlock")
+	full, _ := it["full"].(bool)
+	callName := func(ce *ast.CallExpr) string {
+		if full {
+			return exprText(p.Fset, ce.Fun)
+		}
+		return calleeName(ce.Fun)
+	}
 	var seq []string
 	skip := map[ast.Node]bool{}
 	ast.Inspect(fd.Body, func(n ast.Node) bool {
@@ -47,7 +55,7 @@ func kindEffSeq(c *Ctx, it Item) (string, error) {
 				return true
 			}
 			if nm := calleeName(x.Fun); track[nm] {
-				seq = append(seq, "call:"+nm)
+				seq = append(seq, "call:"+callName(x))
 			}
 		case *ast.AssignStmt, *ast.IncDecStmt:
 			txt := exprText(p.Fset, n)
